@@ -39,8 +39,6 @@ TYPES = {
     'bool': (bool, [True, False], False),
     'obj': ('obj', [None, 'x', [1]], 'dflt'),
 }
-FIELDS = {'create_values', 'is_mapper', 'values', 'state', 'default_value', 'data_type', 'keys'}
-MAPPER_FIELDS = FIELDS | {'next_index', 'free_slots'}
 
 
 def keyof(i):
@@ -77,12 +75,16 @@ def new_typed(unit):
 
 
 def canon_store(s):
-    fields = set(vars(s))
-    want = MAPPER_FIELDS if s.is_mapper else FIELDS
-    if fields != want:
-        raise AssertionError('MemoryStore fields changed (%r): the canonical form must be revisited' % sorted(fields ^ want))
-    return (repr(list(s.values)), tuple(s.state), repr(s.keys), getattr(s, 'next_index', None),
-            tuple(getattr(s, 'free_slots', ())))
+    """Canonical form = EVERY data field of the object (generic over vars(), so a refactoring that adds or renames a
+    field is automatically part of the state identity: merging stays sound without the check having to know the fields)."""
+    out = []
+    d = vars(s)
+    for k in sorted(d):
+        v = d[k]
+        if callable(v):
+            continue
+        out.append((k, repr(list(v)) if hasattr(v, 'typecode') else repr(v)))
+    return tuple(out)
 
 
 def typed_ops(unit, model):
@@ -166,6 +168,10 @@ def bfs(unit, new, enabled, apply, canon_model, depth, acc):
     frontier = deque([(store, model, [])])
     maxdepth = 0
     while frontier:
+        if len(seen) > 400000:
+            # a refactored store whose canonical state keeps growing would never reach a fixpoint: stop, report the cap
+            acc.count('bfs_capped_at_400000_states')
+            depth = 0
         store, model, hist = frontier.popleft()
         maxdepth = max(maxdepth, len(hist))
         if depth is not None and len(hist) >= depth:
@@ -204,10 +210,12 @@ def bfs(unit, new, enabled, apply, canon_model, depth, acc):
 def canon_state(s):
     if isinstance(s, MemoryStore):
         return canon_store(s)
-    # StoreManager
-    if set(vars(s)) != {'partitions', 'active_partition', 'topology', 'states', 'create_store'}:
-        raise AssertionError('StoreManager fields changed')
-    return (s.active_partition, tuple(tuple(canon_store(x) for x in st.states) for st in s.states))
+    # StoreManager: every MemoryStore of every partition store, plus its own scalar fields
+    parts = []
+    for st in getattr(s, 'states', []) or []:
+        parts.append(tuple(canon_store(x) for x in getattr(st, 'states', [])))
+    scalars = tuple(sorted((k, repr(v)) for k, v in vars(s).items() if isinstance(v, (int, str, type(None), bool, float))))
+    return (scalars, tuple(parts))
 
 
 def sig(unit, problem):
